@@ -38,3 +38,121 @@ def build_obs(chk, ec, ORDERS):
                     lambda I, O, X: meq(M(O['r'], 4), euler_xyz(X, [I['x'], I['y'], I['z']])), T=T, desc='Euler XYZ toMatrix44() == Rx Ry Rz == Matrix44::setEulerAngles (see C09)', bounds='all real angle triples'))
         ec.add(Case('O5.setEulerAngles_matrix.' + T, 'w_m44_seteuler' + T, [Val('x'), Val('y'), Val('z'), Out('r', 16)],
                     lambda I, O, X: meq(M(O['r'], 4), euler_xyz(X, [I['x'], I['y'], I['z']])), T=T, desc='Matrix44::setEulerAngles == Rx Ry Rz (same oracle as the XYZ order)', bounds='all real angle triples'))
+
+
+def build_extract(chk, ec, ORDERS):
+    """extract() round trips: angles extracted from toMatrix33() of an arbitrary angle triple rebuild the same rotation -
+    in general position (thorough) and with the middle angle pinned AT gimbal lock (quick), where the generic formulas degenerate."""
+    import z3
+    from props import contracts
+    from vf.irsym import Rat
+    for T in ('d', 'f'):
+        esz = 8 if T == 'd' else 4
+        for name, o in ORDERS.items():
+            A3 = [Val('x'), Val('y'), Val('z'), Int(o)]
+            def rt(I, O, X, o=o, T=T, esz=esz):
+                if X.conc:
+                    import ctypes
+                    cty = ctypes.c_float if T == 'f' else ctypes.c_double
+                    buf = (cty * 9)(); fn = getattr(X.lib, 'w_euler_m33' + T); fn.restype = None
+                    fn(cty(float(I['x'].frac())), cty(float(I['y'].frac())), cty(float(I['z'].frac())), ctypes.c_int(o), buf)
+                    from fractions import Fraction
+                    return meq(M(O['r'], 3), M([Rat(Fraction(buf[i])) for i in range(9)], 3), 'roundtrip')
+                R3 = run_second(X, 'w_euler_m33' + T, [I['x'], I['y'], I['z'], o], 'm0', 9, esz)
+                return meq(M(O['r'], 3), M(R3, 3), 'roundtrip')
+            for lock in (None, 1, -1):
+                def setup(sym, lock=lock, o=o):
+                    contracts.install(sym, sym.m); contracts.install_atan2(sym)
+                    sym.check_divzero = False
+                    if lock is not None:
+                        sv, cv = sym.sincos(None, Rat(z3.Real('y')))
+                        sym.axioms += [cv.n == 0, sv.n == lock] if not _repeated(o) else ([sv.n == 0, cv.n == lock])
+                if T == 'f' and chk.tier != 'thorough' and name not in ('XYZ', 'ZYXr', 'XZX', 'YXYr'): continue
+                tag = 'general' if lock is None else ('lock+' if lock > 0 else 'lock-')
+                ec.add(Case('O6.extract33_roundtrip.%s.%s.%s' % (name, tag, T), 'w_euler_extract_m33_roundtrip' + T, A3 + [Out('r', 9)], rt, T=T, setup=setup, nvalid=0, allow_divzero=True,
+                            budget=(600 if lock is None else 150), timeout_ms=(60000 if lock is None else 20000), tier=('thorough' if lock is None else 'quick'), core=(lock is not None),
+                            desc='order %s: Euler(order).extract(e.toMatrix33()).toMatrix33() == e.toMatrix33() %s' % (name, 'for every angle triple' if lock is None else
+                                 'with the middle angle AT gimbal lock (%s), every first and third angle' % (('cos = 0, sin = %+d' % lock) if not _repeated(o) else ('sin = 0, cos = %+d' % lock))),
+                            bounds='all real first/third angles; atan2 modelled exactly through sin/cos of its result (atan2(0,0) = 0)'))
+
+
+def _repeated(o):
+    """Imath::Euler::Order encoding: bit 0x0010 set <=> the initial axis is repeated (XZX, XYX, ...)"""
+    return bool(o & 0x0010)
+
+
+def _axes(o):
+    """Euler::angleOrder: (i, j, k) of an Order enumerator (bits: 0x2000/0x1000 initial axis, 0x0100 parity even)"""
+    i = (o >> 12) & 3; even = bool(o & 0x0100)
+    nxt = (i + 1) % 3; prv = (i - 1) % 3
+    return (i, nxt, prv) if even else (i, prv, nxt)
+
+
+def lock_matrix(o, sigma):
+    """family of ALL rotation matrices at gimbal lock for order o and sign sigma, parametrised by a unit pair (c, s):
+    non-repeated orders lock when M[i][k] = +-1, repeated ones when M[i][i] = +-1; the remaining 2x2 block is a planar
+    rotation or reflection, whichever makes det M = +1.  returns fn(params)->9 entries"""
+    from fractions import Fraction
+    i, j, k = _axes(o)
+    col = i if _repeated(o) else k
+    rows = [r for r in range(3) if r != i]; cols = [c for c in range(3) if c != col]
+    def build(c, s, eps):
+        m = [[rz(0)] * 3 for _ in range(3)]
+        m[i][col] = rz(sigma)
+        m[rows[0]][cols[0]] = c; m[rows[0]][cols[1]] = s
+        m[rows[1]][cols[0]] = rmul(rz(-eps), s); m[rows[1]][cols[1]] = rmul(rz(eps), c)
+        return m
+    def detc(m):
+        f = lambda v: R(v).frac()
+        return (f(m[0][0]) * (f(m[1][1]) * f(m[2][2]) - f(m[1][2]) * f(m[2][1])) - f(m[0][1]) * (f(m[1][0]) * f(m[2][2]) - f(m[1][2]) * f(m[2][0]))
+                + f(m[0][2]) * (f(m[1][0]) * f(m[2][1]) - f(m[1][1]) * f(m[2][0])))
+    eps = 1 if detc(build(rz(1), rz(0), 1)) == 1 else -1
+    assert detc(build(rz(Fraction(3, 5)), rz(Fraction(4, 5)), eps)) == 1
+    return lambda ps: [e for row in build(ps[0], ps[1], eps) for e in row]
+
+
+def build_extract_lock(chk, ec, ORDERS):
+    """extract() from EXACT gimbal-lock matrices (entries exactly 0 and +-1 where the lock puts them: the case a float angle of
+    pi/2 never produces): round trip through the 3x3 and the 4x4 overload, and both overloads give the same angles."""
+    from props import contracts
+    def setup(sym):
+        contracts.install(sym, sym.m); contracts.install_atan2(sym); sym.check_divzero = False
+    for T in ('d', 'f'):
+        for name, o in ORDERS.items():
+            if T == 'f' and chk.tier != 'thorough' and name not in ('XYZ', 'ZYXr', 'XZX', 'YXYr'): continue
+            for sigma in (1, -1):
+                fam = lock_matrix(o, sigma)
+                MIN = In('m', 9, param=(2, fam))
+                pre = lambda I: [eq(radd(rmul(I['m_p'][0], I['m_p'][0]), rmul(I['m_p'][1], I['m_p'][1])), rz(1))]
+                def samp(rng, inp):
+                    from fractions import Fraction
+                    c, s_ = rng.choice([(Fraction(3, 5), Fraction(4, 5)), (Fraction(-5, 13), Fraction(12, 13)), (Fraction(1), Fraction(0)), (Fraction(0), Fraction(-1)), (Fraction(-8, 17), Fraction(-15, 17))])
+                    inp['m_p'] = [c, s_]; return inp
+                tag = '%s.lock%s.%s' % (name, '+' if sigma > 0 else '-', T)
+                bnd = 'every rotation matrix with M[%d][%d] == %+d exactly (unit pair (c,s) arbitrary); atan2 modelled exactly through sin/cos of its result, atan2(0,0) = 0' % (_axes(o)[0], _axes(o)[0] if _repeated(o) else _axes(o)[2], sigma)
+                for w, nm in (('33', 'Matrix33'), ('44', 'Matrix44')):
+                    ec.add(Case('O6.extract%s_lock_matrix.%s' % (w, tag), 'w_euler_extract%s_rt%s' % (w, T), [MIN, Int(o), Out('r', 9)], lambda I, O, X: meq(M(O['r'], 3), M(I['m'], 3), 'roundtrip'),
+                                T=T, setup=setup, pre=pre, sample=samp, nvalid=3, allow_divzero=True, budget=150, timeout_ms=20000,
+                                desc='order %s: extract(%s) of a matrix exactly at gimbal lock, converted back, is that matrix' % (name, nm), bounds=bnd))
+                def same(I, O, X, o=o, T=T):
+                    if X.conc:
+                        import ctypes
+                        from fractions import Fraction
+                        cty = ctypes.c_float if T == 'f' else ctypes.c_double
+                        mb = (cty * 9)(*[float(R(v).frac()) for v in I['m']]); ab = (cty * 3)()
+                        fn = getattr(X.lib, 'w_euler_extract44_angles' + T); fn.restype = None; fn(mb, ctypes.c_int(o), ab)
+                        B4 = [Rat(Fraction(ab[i])) for i in range(3)]
+                    else:
+                        st = State(); esz = 8 if T == 'd' else 4
+                        for idx, v in enumerate(I['m']): st.mem[('m44in', idx * esz)] = R(v)
+                        paths = list(X.S.call('w_euler_extract44_angles' + T, [Ptr('m44in', 0), o, Ptr('a44', 0)], st))
+                        if len(paths) != 1: raise Exception('extract(Matrix44) has %d paths here' % len(paths))
+                        X.extra += [c for c in paths[0][0].pc]
+                        B4 = [paths[0][0].mem[('a44', q * esz)] for q in range(3)]
+                    cl = []
+                    for q in range(3):
+                        s3, c3 = X.sincos(O['a'][q]); s4, c4 = X.sincos(B4[q])
+                        cl += [('angle %d: same sine' % q, eq(s3, s4)), ('angle %d: same cosine' % q, eq(c3, c4))]
+                    return cl
+                ec.add(Case('O6.extract33_44_same_angles.%s' % tag, 'w_euler_extract33_angles%s' % T, [MIN, Int(o), Out('a', 3)], same, T=T, setup=setup, pre=pre, sample=samp, nvalid=0, allow_divzero=True,
+                            budget=150, timeout_ms=20000, desc='order %s: extract(Matrix33) and extract(Matrix44) give the same angles (same sine and cosine each) at gimbal lock' % name, bounds=bnd))
